@@ -40,6 +40,7 @@ type Case struct {
 	Entry   string `json:"entry"`  // xml | post
 	Lex     string `json:"lex"`    // lib | zone | frac | zoneless | subms
 	SubNs   int64  `json:"sub_ns,omitempty"`
+	NoDest  bool   `json:"no_dest,omitempty"` // the Response carries no Destination (allowed when it is unsigned)
 	Resp    int64  `json:"resp"` // response IssueInstant margin
 	Asserts []AssertionTimes `json:"asserts"`
 }
@@ -104,6 +105,9 @@ func (c *Case) build() built {
 	b.respEff = margin(respEff, true, delay)
 	r := spkit.Baseline(now, "id-req", "")
 	r.IssueInstant = respText
+	if c.NoDest && c.Layout == "assert" {
+		r.Destination = nil
+	}
 	r.Assertions = nil
 	sign := &forge.SignSpec{Key: "idp"}
 	if c.Layout == "resp" || c.Layout == "both" {
@@ -323,6 +327,7 @@ func gen(t *rapid.T) Case {
 	if c.Lex == "subms" {
 		c.SubNs = rapid.Int64Range(-499_999, 499_999).Draw(t, "subns")
 	}
+	c.NoDest = c.Layout == "assert" && rapid.IntRange(0, 2).Draw(t, "nodest") == 0
 	if rapid.Bool().Draw(t, "stdtol") {
 		tol := rapid.SampledFrom(tolerances).Draw(t, "tol")
 		c.DelayNs, c.SkewNs = tol[0], tol[1]
@@ -374,6 +379,7 @@ func enumLattice(tier string, emit func(Case)) {
 											continue
 										}
 										c := Case{DelayNs: tol[0], SkewNs: tol[1], NowSec: fix.Epoch.Unix() + int64(ti), NowNsec: 0, Layout: layout, Entry: []string{"xml", "post"}[li], Lex: "lib", Resp: r}
+										c.NoDest = layout == "assert" && (idx/stride)%2 == 1
 										varied := AssertionTimes{Issue: is, NotBefore: nb, NotAfter: na, Confs: []int64{cf}, Encrypted: enc}
 										good := AssertionTimes{Issue: far, NotBefore: far, NotAfter: far, Confs: []int64{far}, Encrypted: enc}
 										switch shape {
@@ -408,7 +414,7 @@ func enumLattice(tier string, emit func(Case)) {
 var prop = &pbt.Prop[Case]{
 	ID: "C02",
 	Rule: "cases: a genuinely IdP-signed response whose five kinds of instants (response/assertion IssueInstant, Conditions NotBefore/NotOnOrAfter, each confirmation NotOnOrAfter) are placed at a chosen signed distance from their boundary relative to the controlled library clock; " +
-		"exhaustive lattice {far inside, 1 ms inside, 1 ms outside, far outside}^5 x 6 tolerance settings x 6 shapes (1/2/3 confirmations, two assertions with the varied one first or second, no confirmation) x signed layout x plain/encrypted (complete in thorough, every 9th member in quick), " +
+		"exhaustive lattice {far inside, 1 ms inside, 1 ms outside, far outside}^5 x 6 tolerance settings x 6 shapes (1/2/3 confirmations, two assertions with the varied one first or second, no confirmation) x signed layout (unsigned Responses with and without Destination) x plain/encrypted (complete in thorough, every 9th member in quick), " +
 		"plus rapid draws with arbitrary margins, tolerances 0..48 h, 1-3 assertions, 0-3 confirmations and lexical forms (zone offsets, 9 fractional digits, zone-less, sub-millisecond digits). " +
 		"oracle: reference model on effective (millisecond-rounded) instants; margins inside (-1 ms, +1 ms) are don't-care. " +
 		"non-trivial: some boundary within 2 ms, or margins on opposite sides, or non-default tolerances. distinct: sha256 of the JSON case.",
